@@ -149,6 +149,8 @@ def _quantity_sites(scn):
             if key in rule:
                 sites.append((rule, key, kind))
     for ss in scn.get('stops', []) or []:
+        if ss.get('wrong_kind'):
+            continue
         sites.append((ss, 'thr', {'encoder': 'AngularPosition',
                                   'tachometer': 'AngularSpeed',
                                   'amperometer': 'Current'}[ss['sensor']]))
